@@ -149,7 +149,7 @@ class Options:
         # super().__init__({k: v for k, v in locals().items() if not unprovided(v)})
 
         if no_data_loss:
-            if addition is None:
+            if addition is None or unprovided(addition):
                 # ignore the input addition is not a "NO-LOSS" approach
                 # warnings.warn(f'')
                 addition = False
